@@ -1,8 +1,8 @@
 #!/venv/bin/python
 """MANIFEST.setup_cmd: regenerate facts from /repo, full Coq build, forbidden-command scan."""
 import os, re, subprocess, sys
-os.environ["PYTHONPATH"] = "/repo"
-sys.path.insert(0, "/verif/harness")
+os.environ["PYTHONPATH"] = os.environ.get("OPC_REPO", "/repo")
+sys.path.insert(0, os.path.dirname(os.path.abspath(__file__)))
 from lib.common import build, COQ
 
 bad = []
